@@ -4,7 +4,7 @@
 usage: tools/validate_seed.py <seed-dir> <k> <seed-id>
   <seed-dir>/patch<k>[.rebased].diff, demo<k>_test.go, meta<k>.json (as delivered by a sub-agent)
 
-Steps (all in /tmp/wt/val, removed afterwards): apply the patch; go build ./...; the 159 baseline
+Steps (all in $VAL_WT, default /tmp/wt/val, removed afterwards): apply the patch; go build ./...; the 159 baseline
 tests must still pass; copy the demo into demo_dir and run demo_cmd -> must FAIL; revert the patch
 -> the same demo must PASS.  On success writes /verif/seeded/<seed-id>/{patch.diff,demo_test.go,meta.json}.
 """
@@ -12,7 +12,7 @@ import json, os, shutil, subprocess, sys
 
 seed_dir, k, sid = sys.argv[1], sys.argv[2], sys.argv[3]
 env = dict(os.environ, GOFLAGS="-mod=mod", GOPROXY="off", GOSUMDB="off", GOTOOLCHAIN="local")
-wt = "/tmp/wt/val"
+wt = os.environ.get("VAL_WT", "/tmp/wt/val")
 
 def sh(cmd, cwd=None, ok_codes=(0,)):
     p = subprocess.run(cmd, shell=True, cwd=cwd, env=env, capture_output=True, text=True)
@@ -47,8 +47,7 @@ try:
     shutil.copy(demo, demo_dst)
     rc_with, out_with = sh(meta["demo_cmd"], wt)
     res["demo_with_change"] = "FAIL" if rc_with else "pass"
-    sh("git stash -q -- . ':!*zz_seed_demo_test.go' || git checkout -- .", wt)
-    # make sure only the demo remains
+    # revert the library change; only the demo remains (never git stash: shared between worktrees)
     sh("git checkout -- .", wt)
     shutil.copy(demo, demo_dst)
     rc_wo, out_wo = sh(meta["demo_cmd"], wt)
